@@ -91,24 +91,27 @@ def run(ck):
 
 
 def replay(ck):
+    """Transition cases are replayed on the current tree; recorded-history findings are reproduced by running
+    the same seeded (single-threaded, deterministic) driver again and validating its log."""
     hb = ck.build("h-track")
     d = json.load(open(ck.replay))
     cases = f"{ck.work}/replay_cases.ndjson"
-    traces = []
+    rerun = False
     with open(cases, "w") as f:
         for it in d["items"]:
             c = it["case"]
             if "case" in c:
                 f.write(json.dumps(c["case"]) + "\n")
-            elif "trace" in c:
-                traces.append(c["trace"])
+            else:
+                rerun = True
     if open(cases).read().strip():
         ck.absorb(ck.harness(hb, ["replay", "peertracker", cases, "--nc", 2, "--nt", 2], "replay"), classify)
-    loose = ck.cfg_with("Trace_PeerTracker.cfg", {"Strict": "FALSE"}, name="Trace_PeerTracker_loose.cfg")
-    for i, t in enumerate(traces):
-        p = f"{ck.work}/replay_trace{i}.ndjson"
-        open(p, "w").write("\n".join(t) + "\n")
-        ok, rej = ck.tlc_trace("Trace_PeerTracker", loose, p, tag=f"rt{i}")
-        if not ok:
-            ev = rej["event"] if isinstance(rej.get("event"), dict) else {}
-            ck.violation({"kind": "trace-reject", "op": ev.get("name")}, json.dumps(rej)[:300], {"trace": t, "reject": rej})
+    if rerun:
+        quick = d.get("tier", "quick") == "quick"
+        trace = f"{ck.work}/trace.ndjson"
+        s2 = ck.harness(hb, ["record", "peertracker", "--seed", d.get("seed", ck.seed), "--out", trace,
+                             "--runs", 6 if quick else 60, "--ops", 1000], "record")
+        ck.absorb(s2, classify)
+        strict = ck.cfg_with("Trace_PeerTracker.cfg", {})
+        loose = ck.cfg_with("Trace_PeerTracker.cfg", {"Strict": "FALSE"}, name="Trace_PeerTracker_loose.cfg")
+        _trace(ck, strict, loose, trace)
